@@ -50,6 +50,23 @@ DIRECTED = {
                      "0 setfv 0", "0 hasfz0", "0 resize 0 0 0 2", "0 getmat 1", "0 getfz0v 1", "0 setmat 1 0",
                      "0 resize 0 0 0 1", "conv 0 1 0", "1 dims"],
     "empty_matrix_to_zin": ["0 init 1 0 0 1", "conv 0 1 10"],
+    # vnadata_alloc_and_init (Data/AccessorsModel.v): accepted / refused shapes, then use
+    "alloc_and_init": ["0 allocinit 1 2 2 2", "0 getmat 1", "0 getz0v", "0 meta", "0 setcell 1 1 1 3,4", "0 setfz0 1 1 75,0",
+                       "0 setfmt 3", "0 allocinit 2 3 3 1", "0 dims", "0 meta", "0 allocinit 10 1 3 0", "0 getz0v",
+                       "0 allocinit -1 0 0 0", "0 allocinit 11 0 0 0", "0 allocinit 0 -1 0 0", "0 allocinit 0 0 0 -1",
+                       "0 allocinit 0 65536 65536 0", "0 allocinit 10 2 1 1", "0 allocinit 4 2 3 1",
+                       "1 allocinit 4 2 2 1", "1 setmat 0 4 1,0 2,0 3,0 4,1", "conv 1 0 5", "0 getmat 0", "1 allocinit 0 0 0 3",
+                       "1 getfv", "1 fmax"],
+    # vnadata_get_type_name: every code and the neighbours of the range
+    "type_names": ["0 typename %d" % k for k in range(-2, 13)],
+    # the format: set, clear, refused strings, transport by vnadata_convert into the other object
+    # (Data/AccessorsModel.v: vector + cached string; the string must not survive a clear)
+    "format_clear_then_convert": ["0 init 1 2 2 1", "0 setfmt 2", "0 meta", "0 setfmt -1", "0 meta", "conv 0 1 4", "1 meta",
+                                  "0 meta", "1 setfmt 3", "conv 1 0 1", "0 meta", "0 setfmtbad 0", "0 meta", "0 setfmtbad 1",
+                                  "0 setfmtbad 2", "0 setfmtbad 3", "0 setfmtbad 4", "0 setfmtbad 5", "0 meta",
+                                  "0 setfmt -1", "conv 0 0 5", "0 meta", "conv 0 1 5", "1 meta", "1 setfmt 5", "1 setfmt 1",
+                                  "1 setfmt -1", "1 setfmtbad 1", "1 meta", "conv 1 0 10", "0 meta", "0 setfmt 0",
+                                  "0 allocinit 1 1 1 1", "0 meta"],
     "mode_switches": ["0 init 4 2 2 2", "0 setz0v 2 10,0 20,0", "0 setfz0 1 1 99,0", "0 getz0 0", "0 getz0v",
                       "0 getfz0v 0", "0 getfz0v 1", "0 setz0 0 5,0", "0 hasfz0", "0 getz0v", "0 setfz0v 0 2 1,0 2,0",
                       "0 setallz0 7,0", "0 getfz0 1 1", "0 setfz0 1 0 3,0", "0 setz0v 2 8,0 9,0", "0 getfz0v 1"],
@@ -268,7 +285,10 @@ def run(ctx):
         "tied to the implementation by op-script correspondence on every run; the specification coq/Data/ArraySpec.v "
         "(abstract array, type rule dims_fit, documented vector lengths) is read against vnadata(3) by hand",
         "extraction (ExtrOcamlBasic) + ocaml/drv_data.ml glue; harness/data_harness.c; gcc ASan/UBSan/LSan",
-        "the format string is an opaque token (6 canonical strings); allocation failure is not modelled here (C12)",
+        "the format string is an opaque token (6 canonical strings, 6 strings that must be refused); allocation failure is not modelled here (C12)",
+        "hand-written coq/Data/TwoObjModel.v (machine of any number of objects and the abstract machine with spec_convert, read against "
+        "vnadata(3) by hand) and coq/Data/AccessorsModel.v (alloc_and_init, get_type_name, format vector + cached string); the N-object "
+        "machine is tied through its two-object instance (c15_two_object_machine_embeds), the accessors by directed and random scripts",
     ]
     ctx.assumptions = ["values are abstract (0, 50 and literals); int arguments are unbounded integers with an explicit "
                        "range guard on rows*columns",
@@ -281,7 +301,7 @@ def run(ctx):
     quick = ctx.tier == "quick"
 
     ok, res = ctx.coq_obligations(["Data/DataProofs.v", "Data/RefineProofs.v", "Data/InterleaveProofs.v",
-                                   "Properties_C15.v"])
+                                   "Data/TwoObjProofs.v", "Data/AccessorsProofs.v", "Properties_C15.v"])
     runner = datalib.Runner(ctx)
     # the index tests of the inline accessors exist only without VNADATA_NO_BOUNDS_CHECK; were it
     # defined, the index-refusal cases of the correspondence below are the concrete failing inputs
